@@ -71,8 +71,13 @@ def mk_filter(flt):
         return {}
     lfl, intl, oks = flt
     okset = set(oks)
-    return {"node_filter_fn": (lambda nd: nd._dv_id in okset),
-            "is_apply_filter_to_leaf_nodes": lfl, "is_apply_filter_to_internal_nodes": intl}
+    kw = {"node_filter_fn": (lambda nd: nd._dv_id in okset)}
+    # the documented defaults (leaves: True, internal nodes: False) are exercised by not passing them
+    if lfl is not True:
+        kw["is_apply_filter_to_leaf_nodes"] = lfl
+    if intl is not False:
+        kw["is_apply_filter_to_internal_nodes"] = intl
+    return kw
 
 
 def run_op(case, op):
@@ -131,7 +136,7 @@ def run_op(case, op):
         o = {"k": "in", "exc": exc, "ret": ret, "tree": d, "rooted": tree.is_rooted, "problems": problems,
              "enc_ok": None}
         if upd and exc is None:
-            o["enc_ok"] = encoding_fresh(tree, tix)
+            o["enc_ok"] = encoding_fresh(tree, tix, op_sup(op))
         return o
     # extraction
     exc = None
@@ -179,9 +184,21 @@ def run_op(case, op):
     return o
 
 
-def encoding_fresh(tree, tix):
+def op_sup(op):
+    n = op[0]
+    if n in ("PruneTaxa", "PruneLabels"):
+        return op[3]
+    if n in ("RetainTaxa", "RetainLabels", "PruneSubtree", "PruneNoTaxa"):
+        return op[3]
+    if n == "FilterLeaves":
+        return op[4]
+    return True
+
+
+def encoding_fresh(tree, tix, sup=True):
     """update_bipartitions=True: the stored encoding equals a fresh encoding of a clone, and a fresh
-    encoding does not restructure the tree any further"""
+    encoding (suppressing unifurcations only if the caller asked for that) does not restructure the
+    tree any further"""
     import dendropy
     enc = [(b.leafset_bitmask, b.split_bitmask) for b in (tree.bipartition_encoding or [])]
     ix = lambda tr: {id(t): k for k, t in enumerate(tr.taxon_namespace)}
@@ -195,7 +212,7 @@ def encoding_fresh(tree, tix):
     # (b) a fresh default encoding of a clone gives the same list and does not restructure the tree
     clone = dendropy.Tree(tree)
     before = strip_ids(trees.dump_dendropy(clone, ix(clone))[0])
-    clone.encode_bipartitions()
+    clone.encode_bipartitions(suppress_unifurcations=sup)
     after = strip_ids(trees.dump_dendropy(clone, ix(clone))[0])
     enc2 = [(b.leafset_bitmask, b.split_bitmask) for b in clone.bipartition_encoding]
     return [matches, bool(enc == enc2 and before == after)]
@@ -661,13 +678,6 @@ def oracle(case, obs):
 # ------------------------------------------------------------------------------------------------
 # generators
 # ------------------------------------------------------------------------------------------------
-
-def subset_group(rng, case_taxa, keep, upd, sup, labels_exact=True, flip=None):
-    """the eight API variants for one keep-set (taxa on the tree = case_taxa)"""
-    comp = [k for k in case_taxa if k not in keep]
-    keep = list(keep)
-    return keep, comp
-
 
 def mk_group_ops(case, keep, upd, sup, rng=None, flipcase=False):
     ontree = [n["taxon"] for n in trees.leaves(case["tree"]) if n["taxon"] is not None]
